@@ -221,7 +221,28 @@ class Steps:
         return '\n'.join(lines) + '\n'
 
 
-def check_solution(w, prev, vio, feats):
+STEP_RE = re.compile(r"^s\d+ = (\w+)\('([^']*)'")
+
+
+def expected_names(script):
+    """MSBuild project names the documented naming rules give the steps of
+    a (generated) script, with multiplicities."""
+    out = {}
+    for line in script.split('\n'):
+        m = STEP_RE.match(line)
+        if not m:
+            continue
+        kind, name = m.group(1), m.group(2)
+        if kind in ('shared_library', 'static_library', 'library'):
+            name = os.path.join(os.path.dirname(name),
+                                'lib' + os.path.basename(name))
+        elif kind == 'copy_file':
+            name = 'copy_file_tasks/' + name
+        out[name] = out.get(name, 0) + 1
+    return out
+
+
+def check_solution(w, prev, vio, feats, script=''):
     """-> {(name, path): guid} of this run, or None when the solution is not
     well-formed (a violation has been recorded)."""
     text = w.read_build('solution.sln')
@@ -239,11 +260,15 @@ def check_solution(w, prev, vio, feats):
     if dups:
         g, ps = sorted(dups.items())[0]
         same_name = len({p['name'] for p in ps}) == 1
+        # known cause: two script steps whose *distinct* outputs map to one
+        # MSBuild project name (lib prefix); anything else is something new
+        explained = same_name and \
+            expected_names(script).get(ps[0]['name'], 0) >= 2
         vio('guid-unique',
             '{} projects share GUID {}: {}'.format(
                 len(ps), g, [(p['name'], p['path']) for p in ps]),
-            feats | ({'duplicate-project-name'} if same_name
-                     else {'guid-collision'}))
+            feats | ({'duplicate-project-name'} if explained
+                     else {'guid-collision', 'unexplained-duplicate'}))
         return None
     for p in projects:
         if p['guid'] == p['sln'].upper():
@@ -314,7 +339,7 @@ def execute(root, cfg, scripts):
                                    r.output[-2000:] + '\n' + text)
             feats = {'run={}'.format('configure' if i == 0
                                      else 'regenerate')}
-            cur = check_solution(w, prev, vio, feats)
+            cur = check_solution(w, prev, vio, feats, text)
             if cur is None:
                 break
             stats['projects'] = stats.get('projects', 0) + len(cur)
